@@ -19,8 +19,15 @@ func init() {
 			panic(err)
 		}
 		bad := map[string]int{}
-		for i := 0; i < n; i++ {
-			sp := genSpec(rand.New(rand.NewPCG(uint64(i), 99)))
+		sys := systematic()
+		fmt.Printf("systematic specs: %d\n", len(sys))
+		for i := 0; i < n+len(sys); i++ {
+			var sp *spec
+			if i < len(sys) {
+				sp = sys[i]
+			} else {
+				sp = genSpec(rand.New(rand.NewPCG(uint64(i), 99)))
+			}
 			for _, pin := range []bool{false, true} {
 				rd := render(sp, pin, time.Now().UnixMilli())
 				o := ev.eval(item{SQL: rd.SQL, Params: rd.Params, Mode: rd.Mode})
